@@ -52,21 +52,30 @@ class Type1TagCommandError(TagCommandError):
     }
 
 
-def read_tlv(memory, offset, skip_bytes):
+def read_tlv(memory, offset, skip_bytes, end=0x100000):
     # Unpack a TLV from tag memory and return tag type, tag length and
     # tag value. For tag type 0 there is no length field, this is
     # returned as length -1. The tlv length field can be one or three
     # bytes, if the first byte is 255 then the next two byte carry the
-    # length (big endian).
+    # length (big endian). A TLV that is not completely stored below
+    # the end offset is returned as tag type None.
     try:
+        if offset >= end:
+            return (None, None, None)
+
         tlv_t, offset = (memory[offset], offset+1)
 
         if tlv_t in (0x00, 0xFE):
             return (tlv_t, -1, None)
 
+        if offset >= end:
+            return (None, None, None)
+
         tlv_l, offset = (memory[offset], offset+1)
 
         if tlv_l == 0xFF:
+            if offset + 2 > end:
+                return (None, None, None)
             tlv_l, offset = (
                 unpack(">H", memory[offset:offset+2])[0], offset+2)
 
@@ -74,6 +83,8 @@ def read_tlv(memory, offset, skip_bytes):
         for i in range(tlv_l):
             while (offset + i) in skip_bytes:
                 offset += 1
+            if offset + i >= end:
+                return (None, None, None)
             tlv_v[i] = memory[offset+i]
 
         return (tlv_t, tlv_l, tlv_v)
@@ -178,7 +189,8 @@ class Type1Tag(Tag):
                     offset += 1
                     continue
 
-                tlv_t, tlv_l, tlv_v = read_tlv(tag_memory, offset, skip_bytes)
+                tlv_t, tlv_l, tlv_v = read_tlv(
+                    tag_memory, offset, skip_bytes, tag_memory_size)
                 log.debug("tlv type {0} at address {1}".format(tlv_t, offset))
 
                 if tlv_t == 0x00:
